@@ -6,8 +6,18 @@ From RV Require Import Factory.Model Factory.Conserve Factory.RouteUniq Factory.
 Import ListNotations.
 Local Open Scope N_scope.
 
+(* what factory-side functions never do to the worker actors: touch a dead one, or put a job into a
+   handler (running slot) *)
 Definition dead_same (acts acts' : list (N * actor)) : Prop :=
-  forall x act', In (x, act') acts' -> a_alive act' = false -> In (x, act') acts.
+  forall x act', In (x, act') acts' ->
+    (a_alive act' = false -> In (x, act') acts)
+    /\ (forall j, a_run act' = Some j -> exists act, In (x, act) acts /\ a_run act = Some j).
+
+Lemma lookup_In0 {A} k (v : A) l : lookup k l = Some v -> In (k, v) l.
+Proof.
+  induction l as [|[k' v'] l IH]; simpl; [discriminate|].
+  destruct (k' =? k) eqn:E; [apply N.eqb_eq in E; intros H; inversion H; subst; auto|auto].
+Qed.
 
 Lemma In_update {A} k (v : A) l e : In e (update k v l) -> e = (k, v) \/ In e l.
 Proof.
@@ -20,16 +30,21 @@ Qed.
 Definition TF (w w' : world) : Prop :=
   fstatus w' = fstatus w /\ held w' = held w /\ dead_same (actors w) (actors w').
 
-Lemma dead_same_refl a : dead_same a a. Proof. intros x act' L _. exact L. Qed.
+Lemma dead_same_refl a : dead_same a a.
+Proof. intros x act' L. split; [auto|]. intros j R. eauto. Qed.
 Lemma dead_same_trans a b c : dead_same a b -> dead_same b c -> dead_same a c.
-Proof. intros H1 H2 x act' L D. apply H1; [apply H2; assumption|assumption]. Qed.
-Lemma TF_refl w : TF w w. Proof. repeat split. apply dead_same_refl. Qed.
+Proof.
+  intros H1 H2 x act' L. destruct (H2 x act' L) as [D2 R2]. split.
+  - intros D. destruct (H1 x act' (D2 D)) as [D1 _]. auto.
+  - intros j R. destruct (R2 j R) as (act & La & Ra). destruct (H1 x act La) as [_ R1]. eauto.
+Qed.
+Lemma TF_refl w : TF w w. Proof. (split; [|split]; try reflexivity). apply dead_same_refl. Qed.
 Lemma TF_trans a b c : TF a b -> TF b c -> TF a c.
-Proof. intros (A1 & A2 & A3) (B1 & B2 & B3). repeat split; try congruence. eapply dead_same_trans; eassumption. Qed.
-Ltac tfr := first [apply TF_refl | (repeat split; simpl; try reflexivity; apply dead_same_refl)].
+Proof. intros (A1 & A2 & A3) (B1 & B2 & B3). (split; [|split]); try congruence. eapply dead_same_trans; eassumption. Qed.
+Ltac tfr := first [apply TF_refl | ((split; [|split]; try reflexivity); simpl; try reflexivity; apply dead_same_refl)].
 
 Lemma same_places_TF' w w' : same_places w w' -> fstatus w' = fstatus w -> held w' = held w -> TF w w'.
-Proof. intros (_ & _ & _ & A & _) F H. repeat split; try assumption. rewrite A. apply dead_same_refl. Qed.
+Proof. intros (_ & _ & _ & A & _) F H. (split; [|split]); try assumption. rewrite A. apply dead_same_refl. Qed.
 
 Lemma on_avail_TF c wid b w : TF w (on_avail c wid b w).
 Proof. unfold on_avail. destruct (factory_queueing c); [|tfr]. destruct b; [destruct (memN wid (inq w))|]; tfr. Qed.
@@ -37,7 +52,7 @@ Proof. unfold on_avail. destruct (factory_queueing c); [|tfr]. destruct b; [dest
 Lemma choose_target_TF c k hint w r w' : choose_target c k hint w = (r, w') -> TF w w'.
 Proof.
   intros H. pose proof (choose_target_sameX _ _ _ _ _ _ H) as (_ & A & _ & _ & _ & _ & F).
-  repeat split; [exact F| |rewrite A; apply dead_same_refl].
+  (split; [|split]); [exact F| |rewrite A; apply dead_same_refl].
   unfold choose_target in H. destruct (c_router c).
   - destruct (find_worker _ (pool w)); [inversion H; reflexivity|].
     destruct (match hint with Some h => if in_pool w h then Some h else None | None => None end); [inversion H; reflexivity|].
@@ -61,8 +76,8 @@ Lemma cast_job_dead acts aid j acts' : cast_job acts aid j = Some acts' -> dead_
 Proof.
   unfold cast_job. destruct (lookup aid acts) as [a|] eqn:L; [|discriminate].
   destruct (a_alive a) eqn:A; [|discriminate]. intros H; inversion H; subst.
-  intros x act' Lx D. apply In_update in Lx. destruct Lx as [E|Lx]; [|exact Lx].
-  inversion E; subst. simpl in D. congruence.
+  intros x act' Lx. apply In_update in Lx. destruct Lx as [E|Lx]; [|split; [auto|intros j0 R; eauto]].
+  inversion E; subst. simpl. split; [congruence|]. intros j0 R. exists a. split; [apply lookup_In0; exact L|exact R].
 Qed.
 
 Definition wacts (x : wctx) : list (N * actor) := snd (fst x).
@@ -117,7 +132,7 @@ Lemma with_worker_TF wid f w : (forall x, dead_same (wacts x) (wacts (f x))) -> 
 Proof.
   intros Hf. unfold with_worker. destruct (lookup wid (pool w)) as [p|]; [|tfr].
   specialize (Hf (p, actors w, evs w)). destruct (f (p, actors w, evs w)) as [[p' acts'] out'].
-  repeat split. exact Hf.
+  (split; [|split]; try reflexivity). exact Hf.
 Qed.
 
 Lemma route_message_TF c x hint w r w' : route_message c x hint w = (r, w') -> TF w w'.
@@ -182,9 +197,9 @@ Qed.
 Lemma stop_actor_TF a w : TF w (stop_actor a w).
 Proof.
   unfold stop_actor. destruct (lookup a (actors w)) as [x|] eqn:L; [|tfr].
-  destruct (a_alive x) eqn:A; [|tfr]. repeat split. simpl.
-  intros y act' Ly D. apply In_update in Ly. destruct Ly as [E|Ly]; [|exact Ly].
-  inversion E; subst. simpl in D. discriminate.
+  destruct (a_alive x) eqn:A; [|tfr]. (split; [|split]; try reflexivity). simpl.
+  intros y act' Ly. apply In_update in Ly. destruct Ly as [E|Ly]; [|split; [auto|intros j0 R; eauto]].
+  inversion E; subst. simpl. split; [discriminate|]. intros j0 R. exists x. split; [apply lookup_In0; exact L|exact R].
 Qed.
 
 Lemma avail_tail_TF c who w :
@@ -209,13 +224,13 @@ Qed.
 
 Lemma new_actor_dead acts aid wid : dead_same acts (acts ++ [(aid, new_actor wid)]).
 Proof.
-  intros x act' L D. apply in_app_iff in L. destruct L as [L|[E|[]]]; [exact L|].
-  inversion E; subst. simpl in D. discriminate.
+  intros x act' L. apply in_app_iff in L. destruct L as [L|[E|[]]]; [split; [auto|intros j0 R; eauto]|].
+  inversion E; subst. simpl. split; discriminate.
 Qed.
 
 Lemma spawn_worker_TF c wid w : TF w (spawn_worker c wid w).
 Proof.
-  unfold spawn_worker. eapply TF_trans; [|apply on_avail_TF]. repeat split. simpl. apply new_actor_dead.
+  unfold spawn_worker. eapply TF_trans; [|apply on_avail_TF]. (split; [|split]; try reflexivity). simpl. apply new_actor_dead.
 Qed.
 
 Lemma grow_pool_TF c n wid w : TF w (grow_pool c n wid w).
@@ -268,7 +283,7 @@ Proof.
   - eapply TF_trans; [apply (on_avail_TF c wid false)|]. tfr.
   - cbv zeta.
     set (w1 := set_actors (actors w ++ [(next_aid w, new_actor wid)]) (set_next_aid (next_aid w + 1) w)).
-    assert (E1 : TF w w1) by (repeat split; simpl; apply new_actor_dead).
+    assert (E1 : TF w w1) by ((split; [|split]; try reflexivity); simpl; apply new_actor_dead).
     set (w2 := with_worker wid (fun x => replace_worker (now w1) x (next_aid w)) w1).
     assert (E2 : TF w1 w2) by (apply (with_worker_TF wid _ w1); intros y; apply replace_worker_dead).
     set (w3 := set_by_actor (remove_key who (by_actor w2) ++ [(next_aid w, wid)]) w2).
@@ -290,7 +305,7 @@ Proof.
   unfold handle_msg.
   match goal with |- TF w (check_drained ?ww) =>
     destruct (check_drained_TF' ww) as (F & H & A & _);
-    assert (G : TF w ww); [|destruct G as (G1 & G2 & G3); repeat split; [congruence|congruence|rewrite A; exact G3]]
+    assert (G : TF w ww); [|destruct G as (G1 & G2 & G3); (split; [|split]); [congruence|congruence|rewrite A; exact G3]]
   end.
   destruct m; try tfr.
   - apply dispatch_TF.
@@ -320,7 +335,7 @@ Proof.
   intros (F & H & D) R [T1 T2 T3].
   assert (R' : running_now w' = true) by (unfold running_now in *; rewrite F; exact R).
   constructor.
-  - intros aid act L A. eapply T1; [apply D; eassumption|exact A].
+  - intros aid act L A. eapply T1; [apply (proj1 (D aid act L)); exact A|exact A].
   - intros N0. congruence.
   - intros E. unfold running_now in R'. rewrite E in R'. discriminate.
 Qed.
@@ -353,7 +368,7 @@ Proof.
   destruct (fold_stop_TF (pool w2) w2) as (F3 & H3 & D3). fold w3 in F3, H3, D3.
   destruct (fold_stop_frame (pool w2) w2) as [Q3 _]. cbv zeta in Q3. fold w3 in Q3.
   constructor; simpl.
-  - intros aid act L A. eapply T1; [|exact A]. rewrite <- A1, <- A2. apply D3; [exact L|exact A].
+  - intros aid act L A. eapply T1; [|exact A]. rewrite <- A1, <- A2. apply (proj1 (D3 aid act L)); exact A.
   - intros _. split; [rewrite Q3, Q2; exact Q1|congruence].
   - discriminate.
 Qed.
@@ -402,7 +417,7 @@ Proof.
 Qed.
 
 Lemma check_drained_TF w : TF w (check_drained w).
-Proof. destruct (check_drained_TF' w) as (F & H & A & _). repeat split; auto. rewrite A. apply dead_same_refl. Qed.
+Proof. destruct (check_drained_TF' w) as (F & H & A & _). (split; [|split]); auto. rewrite A. apply dead_same_refl. Qed.
 
 Lemma w_noop_all_dead w a x : T w -> lookup a (actors w) = Some x -> a_alive x = true -> fstatus w <> FStopped.
 Proof. intros H L A E. destruct (t_end _ H E) as (_ & _ & AD). specialize (AD a x (lookup_In _ _ _ L)). congruence. Qed.
